@@ -705,6 +705,18 @@ func (s *Sim) Run(done func() bool) Verdict {
 			lockSpin = 0
 		}
 		g := s.choose(ps)
+		if allSpin {
+			// among spinners the least recently run goes next, whatever the
+			// policy: an unfair policy would let one spinner starve the goroutine
+			// that could take the lock, which is the simulator's doing, not a
+			// deadlock of the code
+			g = ps[0]
+			for _, p := range ps[1:] {
+				if p.lastRun < g.lastRun {
+					g = p
+				}
+			}
+		}
 		g.parked = false
 		g.lastRun = s.Steps + 1
 		g.released++
